@@ -1,4 +1,5 @@
 #![allow(dead_code)]
+mod c16;
 mod c17;
 mod engine;
 mod model;
@@ -32,6 +33,13 @@ struct Prop {
 
 fn props() -> Vec<Prop> {
     vec![Prop {
+        id: "C16",
+        rule: "even cases: random op sequences over three SimpleVob registers with sizes around 31/32/33/63/64/...; odd cases: random vocabularies (duplicates, empties, prefixes, marker tokens, long chains, 256-way fan-out) x random DFAs x start prefixes; distinct non-trivial = distinct (op, resulting register) pairs, distinct vocabularies, and distinct (vocab, dfa, start) with a mask that is neither empty nor full",
+        quick_cases: 120,
+        thorough_cases: 2400,
+        gen: c16::gen_case,
+        run: c16::run_case,
+    }, Prop {
         id: "C17",
         rule: "case = (corpus grammar, synthetic vocabulary sized around a multiple of 32, random history); every step compares C and Rust APIs and runs llg_par_compute_mask for every destination length 0..mask+3 and three longer ones; distinct non-trivial = distinct (grammar, vocab size, mask words) triples with an engine mask",
         quick_cases: 24,
